@@ -116,6 +116,13 @@ func verifBumpAuthority(rt *rapid.T, cur AuthorityID) AuthorityID {
 func verifRunScript(rt *rapid.T, k *kit.Case, s *verifSim, o verifScriptOpts) verifScriptStats {
 	var st verifScriptStats
 	N, Q := s.cfg.N, s.cfg.Q
+	// whether proposals carry the leader's all-record allocator proof (the
+	// MessageDB store takes a sequenced fast path for them)
+	serverIDs := rapid.Bool().Draw(rt, "serverAllocatedIDs")
+	if serverIDs {
+		s.flags["proposals carry server-allocated message ids"] = true
+	}
+	s.serverIDs = serverIDs
 	isolated := map[ch.NodeID]bool{}
 	var script []string
 	note := func(f string, a ...any) { script = append(script, fmt.Sprintf(f, a...)) }
